@@ -106,7 +106,10 @@ fn do_call<F: Fl>(nodes: &[F::Node], c: &Value) -> Value {
             F::edge_loop(node(1), false, &mut |_, _, _| k += 1);
             json!("scanned")
         }
-        "degree" => json!({"obs": F::obs(node(1), &[])}),
+        "degree" => {
+            let _ = F::obs(node(1), &[]);
+            json!("degree")
+        }
         o => panic!("unknown call {}", o),
     }
 }
